@@ -37,4 +37,21 @@ def inserted (ms : List α) (chosen : List Nat) : List α :=
 def instantiate (ms : List α) (allChosen : Bool) (chosen : List Nat) : List α × List α :=
   if allChosen then (ms, []) else (inserted ms chosen, residual ms chosen)
 
+/-- the distinct matches the scheduler chose (the `decided` table absorbs repetitions) -/
+def fired (ms : List α) (chosen : List Nat) : List α :=
+  (sortDedupDesc chosen).filterMap (ms[·]?)
+
+/-- one scheduler step of a rule over time: the matches still pending from earlier steps and the
+newly found ones are offered together; the chosen ones fire, the rest stays pending -/
+def offerStep (pending : List α) (new : List α) (chosen : List Nat) : List α × List α :=
+  (fired (pending ++ new) chosen, residual (pending ++ new) chosen)
+
+/-- a history of steps: (newly found matches, indices the scheduler chose among what it was offered) -/
+def offerRun : List α → List (List α × List Nat) → List α × List α
+  | pending, [] => ([], pending)
+  | pending, (new, chosen) :: rest =>
+    let (f, p') := offerStep pending new chosen
+    let (fs, pend) := offerRun p' rest
+    (f ++ fs, pend)
+
 end EgglogVerif.Scheduler
